@@ -53,6 +53,32 @@ def run(cx):
             cx.ob('COMUT', f'{fn.split("::")[-1]}:{arm}:{m.callee}', ok,
                   f'{fn.split("::")[-1]}: in the {arm} arm the selection is only {"grown" if arm == "Add" else "shrunk"} ({m.callee})',
                   where=Site(b, m.bb, 0, 'm', m.data), found=f'{m.callee} is a `{cls}` write under arm {arm} ({sorted(arms)})')
+        # ORDER: no path through the function avoids the SelectOp dispatch, and inside an arm no path to the exit avoids
+        # the arm's operation (e.g. an early return for an empty pass list would turn Keep into a no-op)
+        disp = [bi for bi in b.live if bi in b.reachable() and b.blocks[bi]['term']['k'] == 'switch' and
+                match('(discr (param mode))', simplify(b.dag().operand(b.blocks[bi]['term']['d'], bi, len(b.blocks[bi]['stmts'])))) is not None]
+        okd = len(disp) >= 1 and all(any(b.dominates(d0, e) for d0 in disp) for e in b.exits())
+        cx.ob('ORDER', f'{fn.split("::")[-1]}:dispatch-unavoidable', okd, f'{fn.split("::")[-1]}: every path to the return passes the Add/Remove/Keep dispatch (no early exit)', where=b.file)
+        ops = {}
+        for m in b.mutations():
+            if m.root == 1 and m.path == ('indices',):
+                arms = arm_of(cx, b, m.bb)
+                arm = 'Add' if 'Add' in arms else 'Remove' if 'Remove' in arms else 'Keep'
+                blk = {m.bb}
+                for (h, blocks, backs) in b.loops():
+                    if m.bb in blocks:
+                        blk.add(h)
+                ops.setdefault(arm, set()).update(blk)
+        for d0 in disp:
+            for s2 in b.succ[d0]:
+                arms = arm_of(cx, b, s2)
+                arm = 'Add' if 'Add' in arms else 'Remove' if 'Remove' in arms else 'Keep' if ('Keep' in arms or {'not-Add', 'not-Remove'} <= arms) else None
+                if arm is None or arm not in ops:
+                    continue
+                reach = b.reach_from([s2], avoid=ops[arm])
+                esc = [e for e in b.exits() if e in reach]
+                cx.ob('ORDER', f'{fn.split("::")[-1]}:{arm}:operation-unavoidable', not esc,
+                      f'{fn.split("::")[-1]}: in the {arm} arm every path to the return passes the arm\'s operation on the selection', where=b.file)
         cx.ob('COMUT', f'{fn.split("::")[-1]}:arms', seen == {'Add', 'Remove', 'Keep'}, f'{fn.split("::")[-1]} writes the selection in each of the three arms', found=str(sorted(seen)))
 
     # polarity of the predicate in mutate
